@@ -135,7 +135,10 @@ def stepBitmap (st : St) (op : String) (kv : KV) : St × String :=
         | .err e => (st, fmtErr e)
         | .panic => (st, "panic")
       | "b.smark" => upd (markVia b base (kv.nat "off") (kv.nat "len"))
-      | "b.sdirty" => (st, fmtRes (dirtyVia b base (kv.nat "off")) (fun x => s!"ok {x}"))
+      | "b.sdirty" =>
+        -- `wrap=none|unit`: `Option::None` and `()` track nothing (bitmap/mod.rs); `some` forwards
+        if kv.str "wrap" = "none" || kv.str "wrap" = "unit" then (st, "ok false")
+        else (st, fmtRes (dirtyVia b base (kv.nat "off")) (fun x => s!"ok {x}"))
       | _ => (st, "bad-op")
 
 /-! ### atomic step programs (C08): run a public operation and print the atomic steps it issues -/
